@@ -142,7 +142,8 @@ def run(prog, tier):
                     t_ = rz_.term(st_.value, st_) if isinstance(st_, ast.Assign) else None
                     gname = fn_.args.args[1].arg if len(fn_.args.args) > 1 else "gp"
                     if t_ is None or str(U(t_)) not in (f"{gname}.y.max()", f"max({gname}.y)", "self.gp.y.max()", "max(self.gp.y)", f"amax({gname}.y)",
-                                                          f"np.max({gname}.y)", f"numpy.max({gname}.y)", f"np.amax({gname}.y)", "np.max(self.gp.y)"):
+                                                          f"np.max({gname}.y)", f"numpy.max({gname}.y)", f"np.amax({gname}.y)", "np.max(self.gp.y)",
+                                                          f"{gname}.y[{gname}.y.argmax()]", f"{gname}.y[argmax({gname}.y)]"):
                         inc_bad.append(f"{ci_.name}.{mname_} line {st_.lineno}: `{U(st_)[:80]}`")
     obs.append(struct_ob("refit-order", f"{prog.cls('AcquisitionFunction').module.name}.AcquisitionFunction[incumbent]", not inc_bad and inc_n > 0,
                          "mu_max must be the maximum of the regressor's data wherever it is set: " + "; ".join(inc_bad[:2]), ACQ,
